@@ -58,6 +58,9 @@ class Lib:
     # ==========================================================================================
     # state helpers
     # ==========================================================================================
+    def approx(self, it, why):
+        it.ctx.__dict__.setdefault("approx_ops", []).append(why)
+
     def touch(self, it, loc):
         """Instantiate the location-quantified assumptions (typing part of the store invariant,
         stated preconditions) for a location the path touches."""
@@ -369,7 +372,8 @@ class Lib:
                 return a.term == b.term
             return self.as_int(it, a).term == self.as_int(it, b).term
         if isinstance(a, VOpaque) or isinstance(b, VOpaque):
-            raise Undecided("comparison of a message string")
+            self.approx(it, "comparison of a message string")
+            return it.ctx.fresh("opaque_cmp", T.B)
         if isinstance(a, VPath) and isinstance(b, VPath):
             if a.anchor == b.anchor and a.marks == b.marks and len(a.parts) == len(b.parts) and \
                     all(x[0] == y[0] for x, y in zip(a.parts, b.parts)):
